@@ -64,7 +64,7 @@ func main() {
 	case "func":
 		code := 0
 		for _, key := range pos {
-			if !strings.Contains(key, "/") {
+			if !strings.Contains(key, "/") && !strings.HasPrefix(key, "lemma:") {
 				// allow short keys: value.(SmallInt).AddOverflow
 				key = vc.RepoModule + "/" + key
 			}
